@@ -57,7 +57,7 @@ ProcessCode(c) ==
 Gate(c, t) ==
   ~Has(c, "ctx") \/
     \A ss \in ProcessCode(c) : \A j \in 1..Len(t) :
-       RunProcess(ss, PredEnv(<<t[j]>>)).st # "fuel"
+       RunProcess(ss, PredEnv(<<t[j]>>)).st \notin {"fuel", "undef"}     \* no defined value (e.g. division by zero): C09's known finding, not run here
 
 SkippedResult(t) == [t |-> t, ms |-> <<>>, firm |-> FALSE, undef |-> FALSE, noret |-> FALSE, why |-> "", skip |-> TRUE]
 
